@@ -121,7 +121,8 @@ CANARIES = {
         ("operator-flipped", "stix2/datastore/filters.py", "flip-compare", ["Filter._check_property", "GtE -> Gt", "stix_obj_property >= filter_value"], "C12.operator-table"),
         ("optimiser-unsound", "stix2/datastore/filesystem.py", "str-perturb", ["_find_search_optimizations", "'!='"], "C12.optimiser-table"),
         ("string-in-prunes-directories", "stix2/datastore/filesystem.py", "text", ['        if filter_.op == "in" and isinstance(filter_.value, str):', '        if False:'], "C12.optimiser-table"),
-        ("collection-members-not-converted", "stix2/datastore/filters.py", "text", ["stix2.utils.parse_into_datetime(v) if isinstance(v, str) else v", "v"], "C12.timestamp-coercion"),
+        ("collection-members-not-converted", "stix2/datastore/filters.py", "text", ["stix2.utils.parse_into_datetime(v)\n                if isinstance(v, (str, datetime)) else v", "v"], "C12.timestamp-coercion"),
+        ("naive-datetime-value-compared-as-given", "stix2/datastore/filters.py", "text", ["isinstance(self.value, (str, datetime)):", "isinstance(self.value, str):"], "C12.timestamp-coercion"),
         ("path-step-into-plain-value-raises", "stix2/datastore/filters.py", "text", ["    if not isinstance(stix_obj, collections.abc.Mapping):\n", "    if False:\n"], "C12.conjunction"),
     ],
     "C13": [
